@@ -645,7 +645,12 @@ func (m *mappedFile) lookup(name string) (v *atomic.Uint64, headOff, head uint32
 	headOff = m.hdrLen + hashOff + h*4
 	head = m.load32(headOff)
 	off := head
-	for off != 0 {
+	// A chain cannot hold more records than fit in the mapping;
+	// a longer walk means the chain is cyclic (a corrupt file).
+	for n := 0; off != 0; n++ {
+		if n > len(m.mapping.Data)/recordUnit {
+			return nil, 0, 0, false
+		}
 		ename, next, v, ok := m.entryAt(off)
 		if !ok {
 			return nil, 0, 0, false
